@@ -10,8 +10,8 @@ invariant Inv_C11_Cache."""
 import json
 import re
 
-from vlib import Infra
-from pipelines import pipeline, spec_must_hold, write_lines, replay_cases, B2
+from vlib import Infra, CORES
+from pipelines import pipeline, spec_must_hold, write_lines, replay_cases, cat_files, B2
 
 CHECKS = {
  "C11": dict(
@@ -165,9 +165,21 @@ def c11(ctx, replay):
                 _cache_clause(ctx, p["scenario"], reconfirm=False)
         return
     # ---- B2: model checking + replay of every genome
-    mc = ctx.tlc("MC_Phenotype", "MC_Phenotype_thorough.cfg" if thorough else "MC_Phenotype.cfg",
-                 timeout=3000 if thorough else 600)
+    # (side by side: the exhaustive small scope and the SIZE scope - genomes of 33..70 nodes whose genes follow a pattern, with
+    # every module over a few positions: structures an implementation may only build from some size on)
+    from concurrent.futures import ThreadPoolExecutor
+    with ThreadPoolExecutor(max_workers=2) as ex:
+        f_big = ex.submit(ctx.tlc, "MC_Phenotype", "MC_Phenotype_big_thorough.cfg" if thorough else "MC_Phenotype_big.cfg",
+                          timeout=3000 if thorough else 600, workers=2)
+        mc = ctx.tlc("MC_Phenotype", "MC_Phenotype_thorough.cfg" if thorough else "MC_Phenotype.cfg",
+                     timeout=3000 if thorough else 600, workers=max(2, min(CORES, 16) - 2))
+        big = f_big.result()
     spec_must_hold(mc, "MC_Phenotype")
+    spec_must_hold(big, "MC_Phenotype/big")
+    both = ctx.path("pheno_cases.ndjson")
+    mc.ncases = cat_files(both, [mc.cases_file, big.cases_file])
+    mc.cases_file = both
+    ctx.extra["big_genomes"] = big.ncases
     if thorough:
         # sanity of the model (why overlapping modules are out of scope): the transcribed edgeBetween must FAIL there
         ov = ctx.tlc("MC_Phenotype", "MC_Phenotype_overlap.cfg", workers=2, timeout=300, count=False)
